@@ -1113,7 +1113,8 @@ pub fn gen_case(rng: &mut Rng, idx: usize, big: bool) -> Case {
             session = vec![(None, None); 1 + rng.below(3) as usize];
         }
         for r in session.iter_mut() {
-            r.1 = Some(*rng.pick(&[100 * NS_PER_MS, 2_000 * NS_PER_MS]));
+            // ... including limits that have expired by the time the first wait is computed (0, 1 ns, half a millisecond)
+            r.1 = Some(*rng.pick(&[0, 1, 500_000, 100 * NS_PER_MS, 100 * NS_PER_MS, 2_000 * NS_PER_MS]));
         }
     }
     let _ = idx;
